@@ -514,7 +514,7 @@ func run(c *core.Ctx) error {
 			sig = "contract:NoLeakAfterClose:" + leakClass(r.Leaks[0])
 		}
 		if inv == "LoopQuietAfterWait" || inv == "ReaderExcludesWriter" {
-			sig = "contract:" + inv + ":" + ev.Pt + ev.Op
+			sig = "contract:" + inv // which hook point trips it first varies from run to run
 		}
 		c.Violation(sig, what, detail)
 	})
@@ -581,8 +581,18 @@ func leakClass(s string) string {
 // confirmHang applies the last clause of the deadlock rule: the same seed
 // must reproduce the hang (same blocked positions). fixedSig names a known
 // hazard; "" uses the positions as signature.
-func confirmHang(c *core.Ctx, bin string, hr *Result, fixedSig string) {
+func confirmHang(c *core.Ctx, bin string, hr *Result, fixedSig string, expectStuck ...string) {
 	h := hr.Hang
+	for _, want := range expectStuck {
+		found := false
+		for _, s := range h.StuckCalls {
+			found = found || s == want
+		}
+		if !found {
+			c.Inconclusive(fmt.Sprintf("scenario %d: watchdog fired but the expected call %q is not among the calls in flight %v", hr.Scenario.ID, want, h.StuckCalls))
+			return
+		}
+	}
 	if !(h.AllBlocked && h.Stable) {
 		c.Inconclusive(fmt.Sprintf("scenario %d did not finish within the watchdog but the deadlock rule is not met (all_blocked=%v stable=%v): %v",
 			hr.Scenario.ID, h.AllBlocked, h.Stable, h.Blocked))
@@ -636,11 +646,12 @@ func runHazards(c *core.Ctx, bin string) {
 		pcs             []string
 		engine          string
 		sig             string
+		stuck           []string
 	}
 	hzs := []hz{
-		{"fd", "Proto_hz_fd.cfg", "<deadlock>", []string{"fdn_rl", "cl_acq"}, "disk", "fielddict-held-while-close-pending-recursive-rlock"},
-		{"close2", "Proto_hz_close2.cfg", "NoPanic", []string{"panic"}, "disk", "second-close-panics-close-of-closed-channel"},
-		{"fmmem", "Proto_hz_fmmem.cfg", "<deadlock>", []string{"fm_wait"}, "mem", "forcemerge-without-merger-loop-never-returns"},
+		{"fd", "Proto_hz_fd.cfg", "<deadlock>", []string{"fdn_rl", "cl_acq"}, "disk", "fielddict-held-while-close-pending-recursive-rlock", []string{"doccount", "close"}},
+		{"close2", "Proto_hz_close2.cfg", "NoPanic", []string{"panic"}, "disk", "second-close-panics-close-of-closed-channel", nil},
+		{"fmmem", "Proto_hz_fmmem.cfg", "<deadlock>", []string{"fm_wait"}, "mem", "forcemerge-without-merger-loop-never-returns", []string{"forcemerge"}},
 	}
 	var wg sync.WaitGroup
 	defer wg.Wait()
